@@ -314,6 +314,23 @@ def compare_outputs(o1, o2):
     return diffs
 
 
+def edit_values(out, mk):
+    """in-place edit of an output's numbers after a first dump: the first entry of every tensor gets a new value, arrays under the
+    last order key are replaced by new arrays (keys, shapes and kinematics stay)"""
+    for k, v in list(out.items()):
+        if not (isinstance(v, list) and v and hasattr(v[0], "orders")):
+            continue
+        for i, r in enumerate(v):
+            keys = list(r.orders)
+            for o in keys:
+                val, err = r.orders[o]
+                if o == keys[-1]:
+                    val, err = val.copy(), err.copy()
+                    r.orders[o] = (val, err)
+                val[0, 0] = mk(f"edited|{k}[{i}].{o}.v")
+                err[0, 0] = mk(f"edited|{k}[{i}].{o}.e")
+
+
 def roundtrip(shape, fmt, mk):
     """returns list of differences (empty = lossless) for dump/load in `fmt` ('yaml', 'tar', 'yaml+tar', 'tar+yaml', ...)"""
     from yadism import output as outmod
@@ -327,6 +344,22 @@ def roundtrip(shape, fmt, mk):
         setattr(resmod, "float", ident)
         setattr(resmod, "int", lambda v: v if isinstance(v, S) or v is None and (_ for _ in ()).throw(TypeError()) else int(v))
         try:
+            # history: ANOTHER output has been written to and read from the very same location before (a path is a name, not an identity)
+            prev = make_output(lambda n: mk("prev|" + n), [("F2_total", 2, 2, 4), ("XSHERANC_total", 1, 1, None)])
+            if fmt.split("+")[0] == "tar":
+                prev.dump_tar("/fake/out.tar")
+                outmod.Output.load_tar("/fake/out.tar")
+            else:
+                st0 = Stream()
+                prev.dump_yaml(st0)
+                outmod.Output.load_yaml(st0)
+            # ... and the object under test has been dumped once before its numbers were last edited (same order keys, new values)
+            if fmt.split("+")[0] == "tar":
+                out.dump_tar("/fake/out.tar")
+            else:
+                out.dump_yaml(Stream())
+            edit_values(out, mk)
+            edit_values(ref, mk)
             cur = out
             for step in fmt.split("+"):
                 if step == "yaml":
@@ -379,19 +412,36 @@ def replay_roundtrip(args):
                 for r in v:
                     for key in r.orders:
                         r.orders[key] = tuple(np.array(t, dtype=float) for t in r.orders[key])
+    def floats(o):
+        for k, v in list(o.items()):
+            if isinstance(v, list) and v and hasattr(v[0], "orders"):
+                for r in v:
+                    for key in r.orders:
+                        r.orders[key] = tuple(np.array(t, dtype=float) for t in r.orders[key])
+        return o
+
     try:
         cur = out
         with tempfile.TemporaryDirectory(dir="/var/tmp") as d:
+            # the same history as in the symbolic run: another output at the same location first, a first dump before the last edit
+            first = args["fmt"].split("+")[0]
+            prev = floats(make_output(lambda n: mk("prev|" + n), [("F2_total", 2, 2, 4), ("XSHERANC_total", 1, 1, None)]))
+            if first == "tar":
+                prev.dump_tar(f"{d}/out.tar")
+                outmod.Output.load_tar(f"{d}/out.tar")
+                out.dump_tar(f"{d}/out.tar")
+            else:
+                outmod.Output.load_yaml(prev.dump_yaml())
+                out.dump_yaml()
+            edit_values(out, mk)
+            edit_values(ref, mk)
             for i, step in enumerate(args["fmt"].split("+")):
                 if step == "yaml":
                     cur = outmod.Output.load_yaml(cur.dump_yaml())
                 else:
-                    cur.dump_tar(f"{d}/o{i}.tar")
-                    cur = outmod.Output.load_tar(f"{d}/o{i}.tar")
-            other = make_output(lambda n: mk("other|" + n), [("F2_total", 1, 1, 4)])
-            for r in other["F2_total"]:
-                for key in r.orders:
-                    r.orders[key] = tuple(np.array(t, dtype=float) for t in r.orders[key])
+                    cur.dump_tar(f"{d}/out.tar")
+                    cur = outmod.Output.load_tar(f"{d}/out.tar")
+            other = floats(make_output(lambda n: mk("other|" + n), [("F2_total", 1, 1, 4)]))
             if args["fmt"].split("+")[-1] == "yaml":
                 outmod.Output.load_yaml(other.dump_yaml())
             else:
